@@ -71,6 +71,7 @@ type Ctx struct {
 	Deadline    time.Time
 	CaseTimeout time.Duration
 	Hung        bool
+	classSeen   map[string]int
 
 	P        Part
 	counter  int64
@@ -81,7 +82,7 @@ type Ctx struct {
 
 func NewCtx(prop, tier string, seed int64, shard, nshards int) *Ctx {
 	return &Ctx{Prop: prop, Tier: tier, Seed: seed, Shard: shard, NShards: nshards,
-		ids: map[uint64]struct{}{}, maxViol: 5, CaseTimeout: 60 * time.Second,
+		ids: map[uint64]struct{}{}, maxViol: 8, CaseTimeout: 60 * time.Second,
 		P: Part{KFHits: map[string]int64{}, KFExamples: map[string]string{}, Counters: map[string]int64{}, Outcomes: map[string]int64{}}}
 }
 
@@ -216,6 +217,15 @@ func (c *Ctx) Exec(id string, nontrivial bool, f func() Verdict) {
 		}
 		v.Detail = "(matches alternative model '" + v.KF + "', which is NOT a listed known finding) " + v.Detail
 	}
+	c.P.Counters["violating_cases_by_class:"+idClass(id)]++
+	if c.classSeen == nil {
+		c.classSeen = map[string]int{}
+	}
+	c.classSeen[idClass(id)]++
+	if c.classSeen[idClass(id)] > 1 && len(c.P.Violations) >= 2 {
+		c.P.Counters["violations_not_recorded"]++
+		return
+	}
 	if len(c.P.Violations) >= c.maxViol {
 		c.P.Counters["violations_not_recorded"]++
 		return
@@ -256,6 +266,16 @@ func safely(f func() Verdict) (v Verdict) {
 		}
 	}()
 	return f()
+}
+
+// idClass: the leading identifier characters of a case id (operation / family).
+func idClass(id string) string {
+	for i, r := range id {
+		if !(r >= 'a' && r <= 'z' || r >= 'A' && r <= 'Z' || r >= '0' && r <= '9' || r == '/' || r == '_') {
+			return id[:i]
+		}
+	}
+	return id
 }
 
 func sanitize(id string) string {
